@@ -117,8 +117,10 @@ def query_traversal(node, callback, is_table=False, is_target=False, parent_quer
         if node.cte is not None:
             array = []
             for cte in node.cte:
-                node_out = query_traversal(cte.query, callback, parent_query=node) or cte
-                array.append(node_out)
+                node_out = query_traversal(cte.query, callback, parent_query=node)
+                if node_out is not None:
+                    cte.query = node_out
+                array.append(cte)
             node.cte = array
 
         if node.where is not None:
@@ -173,13 +175,19 @@ def query_traversal(node, callback, is_table=False, is_target=False, parent_quer
             array.append(node_out)
         node.args = array
 
+        if isinstance(node, (ast.Exists, ast.NotExists)) and len(array) == 1:
+            # these nodes keep the sub-select a second time
+            node.query = array[0]
+
         if isinstance(node, ast.Function) and node.from_arg is not None:
             node_out = query_traversal(node.from_arg, callback, parent_query=parent_query)
             if node_out is not None:
                 node.from_arg = node_out
 
     elif isinstance(node, ast.WindowFunction):
-        query_traversal(node.function, callback, parent_query=parent_query)
+        node_out = query_traversal(node.function, callback, parent_query=parent_query)
+        if node_out is not None:
+            node.function = node_out
         if node.partition is not None:
             array = []
             for node2 in node.partition:
